@@ -480,6 +480,27 @@ def gen_many_expansions(rng, k=None):
     return prog + body
 
 
+def gen_deep_args(rng):
+    """expression-macro invocations nested THROUGH ARGUMENTS to a depth around and beyond the macro-expansion limit
+    (`inc(inc(…inc(0)…))`, 200–300 deep): an argument is evaluated at the call site, at the call site's own expansion depth,
+    so argument nesting is not macro recursion and must evaluate at any depth; also a chain of forwarding macros (real
+    expansion depth k < 255) whose innermost call passes a deeply nested argument"""
+    kind = rng.choice(["nest", "nest", "chain"])
+    prog = [("edef", "inc", ["x"], X(rng, ["$x", "+", "1"]))]
+    if kind == "nest":
+        d = rng.choice([200, 254, 255, 256, 257, 300])
+        toks = ["inc", "("] * d + [lit(rng, rng.randrange(0, 9))] + [")"] * d
+        use = [("push", 2, X(rng, toks))]
+    else:
+        k, d = rng.choice([(50, 220), (150, 120), (200, 100)])
+        prog.append(("edef", "m0", ["v"], X(rng, ["$v", "*", "2"])))
+        for i in range(1, k):
+            inner = ["inc", "("] * d + ["$v"] + [")"] * d if i == 1 else ["$v"]
+            prog.append(("edef", f"m{i}", ["v"], X(rng, [f"m{i-1}", "("] + inner + [")"])))
+        use = [("push", 2, X(rng, [f"m{k-1}", "(", lit(rng, rng.randrange(0, 9)), ")"]))]
+    return (prog + use) if rng.random() < 0.5 else (use + prog)
+
+
 def gen_macros(rng):
     """instruction macros: parameters, local labels in compound expressions, forwarding through nested
     invocations, local label as argument, clashes between local / outer / argument names, definition after use"""
